@@ -793,6 +793,7 @@ def facts_charset():
 VARS_BODIES = [
     "variables.py:Variables:get_schema", "variables.py:Variables:set", "variables.py:Variables:get", "variables.py:Variables:list",
     "variables.py::parse_timezone", "variables.py::=RE_TIMEZONE", "variables.py::_validate_character_set",
+    "variables.py::_validate_client_character_set", "variables.py::_to_bool",
     "variables.py:SessionVariables:schema", "variables.py:GlobalVariables:schema",
     "session.py:Session:_set_var_middleware", "session.py:Session:_set_middleware", "session.py:Session:_set_variable",
     "session.py:Session:_set_charset", "session.py:Session:_set_names", "session.py:Session:_set_transaction",
@@ -839,7 +840,7 @@ def facts_vars():
     if len(va) != 1 or not isinstance(va[0].value, ast.Dict):
         raise Shape("VALIDATORS: assignments to variables the server depends on are not checked")
     vd = {k.value: ast.unparse(v) for k, v in zip(va[0].value.keys, va[0].value.values)}
-    want = {"character_set_client": "_validate_character_set", "character_set_connection": "_validate_character_set",
+    want = {"character_set_client": "_validate_client_character_set", "character_set_connection": "_validate_character_set",
             "character_set_results": "_validate_character_set", "time_zone": "parse_timezone"}
     out.append("Definition variables_validators_ok : bool := %s." % str(vd == want).lower())
     # TRANSACTION_CHARACTERISTICS
